@@ -5,7 +5,7 @@ dominates the body allocation in both readers, zero-length frame returns before
 allocation, the four width tables agree per FrameMode, big-endian everywhere,
 one-shot framer == streaming writer.
 """
-from ..core import callee_of, callee_names, is_call_to, exclusive_blocks, fold, receiver_root, unwrap
+from ..core import callee_of, callee_names, is_call_to, exclusive_blocks, fold, receiver_root, unwrap, root_fields
 from ..ranges import Ranges, canon, INF
 from ..families import describe
 from ..wire import success_sequences, io_events, fmt_seq, prim_of, widths
@@ -150,6 +150,29 @@ def transport_rules(ctx, RULE):
                 n += 1
                 ctx.bad(RULE, '%s:select' % q.split('::{')[0].rsplit('::', 1)[-1], 'a frame read is polled inside a select together with another future: when the other one wins, the partly read frame is dropped and the stream is out of step',
                         ctx.where(XB, bb), key='LOOP:%s:frame-read-in-select' % q.split('::{')[0])
+    # (e) bytes buffered for one stream do not meet the next one
+    tadt = ctx.F.adts.get('edp_client::transport::FramedTransport')
+    bufs = [f['n'] for v in (tadt or {}).get('variants', []) for f in v.get('fields', []) if any(x in str(f.get('ty')) for x in ('BytesMut', 'Vec<u8>', 'VecDeque<u8>'))]
+    if not bufs:
+        ctx.ok(RULE, 'stream-buffers', 'the transport keeps no byte buffer of its own between calls')
+    for fld in bufs:
+        for q in sorted(ctx.F.bodies):
+            if 'edp_client::transport::' not in q or ctx.F.bodies[q]['kind'] not in ('Fn', 'AssocFn', 'Closure'):
+                continue
+            XB = P.B(q)
+            swaps = [bb for bb, j, st in XB.stmts() if st['k'] == '=' and (st['pl'].get('p') or []) and isinstance(st['pl']['p'][-1], dict) and st['pl']['p'][-1].get('n') in ('read_half', 'write_half')
+                     and bb in XB.live_blocks()]
+            if not swaps:
+                continue
+            resets = [bb for bb, t in XB.calls() if (callee_of(t)[0] or '').rsplit('::', 1)[-1] in ('clear', 'truncate', 'split', 'split_off', 'take', 'replace') and t['args'] and fld in root_fields(XB, t['args'][0])]
+            resets += [bb for bb, j, st in XB.stmts() if st['k'] == '=' and (st['pl'].get('p') or []) and isinstance(st['pl']['p'][-1], dict) and st['pl']['p'][-1].get('n') == fld]
+            base = q.split('::{')[0].rsplit('::', 1)[-1]
+            n += 1
+            if resets:
+                ctx.ok(RULE, '%s:%s' % (base, fld), 'the buffer is emptied where the stream is replaced', ctx.where(XB, resets[0]))
+            else:
+                ctx.bad(RULE, '%s:%s' % (base, fld), '%s replaces or drops the stream but leaves the bytes buffered in `%s`: what a previous peer sent (or what was staged for it) is taken for the start of the next connection\'s traffic'
+                        % (base, fld), ctx.where(XB, swaps[0]), key='PAIR:%s%s:%s-survives-stream' % (TR, base, fld))
     # (d) a timer around a socket read ends the read: the read is never tried again after the timer fired
     def _reads_socket(name):
         if 'AsyncReadExt::read' in name or 'io::util::read_exact' in name or name.endswith('::read_framed'):
@@ -309,12 +332,15 @@ def run(ctx):
         if B is None:
             continue
         R = Ranges(B)
-        allocs = [(bb, t) for bb, t in B.calls() if is_call_to(t, 'alloc::vec::from_elem') or is_call_to(t, 'with_capacity') or is_call_to(t, 'resize')]
-        allocs = [(bb, t) for bb, t in allocs if 'u8' in B.local_ty(t['dst']['l']) or is_call_to(t, 'resize')]
+        RESERVE = ('reserve', 'reserve_exact', 'try_reserve', 'try_reserve_exact', 'resize', 'resize_with')
+        allocs = [(bb, t) for bb, t in B.calls() if is_call_to(t, 'alloc::vec::from_elem') or is_call_to(t, 'with_capacity')
+                  or ((callee_of(t)[0] or '').rsplit('::', 1)[-1] in RESERVE and ('Vec' in (callee_of(t)[0] or '') or 'BytesMut' in (callee_of(t)[0] or '')))]
+        allocs = [(bb, t) for bb, t in allocs if 'u8' in B.local_ty(t['dst']['l']) or (callee_of(t)[0] or '').rsplit('::', 1)[-1] in RESERVE]
         if not ctx.anchor(len(allocs) >= 1, path + ':body-allocation'):
             continue
         for bb, t in allocs:
-            szop = t['args'][1] if is_call_to(t, 'alloc::vec::from_elem') else t['args'][-1]
+            last_ = (callee_of(t)[0] or '').rsplit('::', 1)[-1]
+            szop = t['args'][1] if (is_call_to(t, 'alloc::vec::from_elem') or last_ in RESERVE) and len(t['args']) > 1 else t['args'][-1]
             rng = R.range_of(szop, bb)
             inst = path.split('::')[-2]
             if rng[1] <= CAP_LIMIT:
